@@ -3,6 +3,7 @@
 use crate::ast::{Mode, Node, A};
 use crate::common::*;
 use crate::diff::{self, Compare, DiffCfg};
+#[allow(unused_imports)]
 use crate::refm::{self, Obs, R};
 use crate::spaces;
 use fancy_regex::{Assertion, Expr, LookAround};
